@@ -60,7 +60,7 @@ def run(run, args):
     run.cov.update({"evaluations": len(recs) + len(pairs), "distinct_nontrivial": len(set(res[3])) + len(pairs),
                     "rule": "all %d (element, isotope-or-none) pairs of the table rendered, parsed back and round-tripped through serde_json; every string "
                             "up to length %d over a 19-character alphabet {C H l c A 1 3 0 [ ] e-acute 4-byte-digit space + * e U u o} (exhaustive) and random / "
-                            "one-edit-mutated specifications, each parsed through 3 entry points and used as a read key (index and get_str) on list, map and "
+                            "one-edit-mutated specifications, each parsed through 4 entry points (parse, FromStr, parse_with, ChemicalElements::parse_element) and used as a read key (index and get_str) on list, map and "
                             "both enum forms of {C:2, C[13]:5, H:7, Cl[37]:3, Ac:4, Uuo:6, H+:8}; non-trivial = accepted or longer than 2" % (len(pairs), L),
                     "modes": dict(Counter(r["mode"] for r in recs)), "parse_outcomes": dict(outs), "table_pairs_model": pres[2][0] if pres[2] else None,
                     "error_kind_differences_model_vs_impl": len(res[2]),
